@@ -209,13 +209,14 @@ def do_check(prop, pid, tier, seed, a, scratch, t0):
     failing = [r for r in all_results if r["result"] != "unsat"]
 
     # ---- vacuity guards
+    vacuity = {}
     for q, m in merged.items():
         cans = m.get("canaries") or []
         if cans and all(c[2] == "unreachable" for c in cans):
-            errors.append("%s: every exit path is unreachable (inconsistent hypotheses)" % q)
+            vacuity.setdefault(q, []).append("%s: every exit path is unreachable (inconsistent hypotheses)" % q)
         rets = [c for c in cans if c[0] == "return"]
         if rets and all(c[2] == "unreachable" for c in rets):
-            errors.append("%s: every normal-return path is unreachable (inconsistent hypotheses on the normal path)" % q)
+            vacuity.setdefault(q, []).append("%s: every normal-return path is unreachable (inconsistent hypotheses on the normal path)" % q)
         b = baseline.get("functions", {}).get(q)
         if b and m.get("fingerprint") == b["fingerprint"] and m.get("n_obligations") is not None and not a.only:
             if m["n_obligations"] != b["n_obligations"] and baseline.get("contracts_hash") == contracts_hash():
@@ -236,6 +237,11 @@ def do_check(prop, pid, tier, seed, a, scratch, t0):
             retry.append(r)
             continue
         violations.append(r)
+    # an edited function whose loop invariant / cut already fails makes the paths behind it inconsistent: that is a consequence of the
+    # reported violation, not a defect of the checker; anywhere else unreachable exits are a checker error
+    for q, msgs in vacuity.items():
+        if not any(r["function"] == q for r in violations):
+            errors.extend(msgs)
     if retry:
         # Same VC as on the baseline (function and contracts unchanged): a solver
         # flake, not a change in the code.  Retry alone, with a long budget.
